@@ -124,6 +124,7 @@ func ruleNUMWIDTH1(c *Ctx) {
 		})
 	}
 	c.Floor("width-carrying conversion calls", n, 15)
+	numwidthTokenFloats(c)
 
 	// integer range tests and sign handling in the int/uint unmarshalers
 	for _, spec := range []struct {
